@@ -85,6 +85,12 @@ def materialize (S : Schema) (f : FieldD) : Val → Val
 
 def setAt (xs : List Val) (i : Nat) (v : Val) : List Val := xs.set i v
 
+/-- the sibling reset of `__setattr__`: every member of group `g` other than `idx` goes
+    back to PLACEHOLDER (`j` = index of the head of the lists) -/
+def resetGroup (g idx : Nat) : List FieldD → List Val → Nat → List Val
+  | fj :: fs', s :: ss, j => (if fj.group == some g && j != idx then Val.ph else s) :: resetGroup g idx fs' ss (j + 1)
+  | _, ss, _ => ss
+
 /-- `Message.__setattr__(name, value)` after `__post_init__` -/
 def setAttr (S : Schema) (fs : List FieldD) (st : MState) (idx : Nat) (v : Val) : MState :=
   let v := match v with
@@ -96,10 +102,7 @@ def setAttr (S : Schema) (fs : List FieldD) (st : MState) (idx : Nat) (v : Val) 
     match f.group with
     | Option.none => { st with onWire := true, slots := setAt st.slots idx v }
     | some g =>
-      let rec reset : List FieldD → List Val → Nat → List Val
-        | fj :: fs', s :: ss, j => (if fj.group == some g && j != idx then Val.ph else s) :: reset fs' ss (j + 1)
-        | _, ss, _ => ss
-      { st with onWire := true, cur := st.cur.set g (some idx), slots := setAt (reset fs st.slots 0) idx v }
+      { st with onWire := true, cur := st.cur.set g (some idx), slots := setAt (resetGroup g idx fs st.slots 0) idx v }
 
 def keyEq : Val → Val → Bool
   | .int a, .int b => a == b
